@@ -23,7 +23,7 @@ func init() {
 		ID: "C08", Level: "model_checking",
 		Rule:   "ELX: every sequence of environment events up to the depth bound over {HEADERS(+-ES,+-EH), CONTINUATION(+-EH), DATA(+-ES, empty), trailers, RST_STREAM, WINDOW_UPDATE(0,1,to 2^31-1,overflow), PRIORITY(other,self)} x stream roles {A,B = opened earlier, N = next new id, N2 = skipping one id, L = skipped id, E = even, Z = closed in the prelude} + connection frames (PING, SETTINGS, ACKs, WINDOW_UPDATE, unknown type) + handler completions; 2 preludes; real server run to exact quiescence after each event; reaction {none, RST_STREAM(code), GOAWAY(code), close, dispatch, acks} must be in the RFC's allowed set. Non-trivial: sequence reaches >= 2 streams or a non-idle stream state before its last event; distinct by event sequence.",
 		Assume: []string{"allowed-reaction table of checks/c08.go is RFC 7540 5.1, 5.1.1, 5.1.2, 6.x with leniencies listed in DESIGN.md §4 C08", "internal schedule between events is canonical (quiescent state of the three loops does not depend on it; cross-checked by SPX in C19)"},
-		Run:    runC08, Replay: replayC08, QuickS: 120, ThoroughS: 1200,
+		Run:    runC08, Replay: replayC08, Policies: 1, QuickS: 120, ThoroughS: 1200,
 	})
 }
 
